@@ -204,16 +204,21 @@ impl ConfigReloader {
     }
 
     fn run_once(&mut self, rate: Duration) -> anyhow::Result<Option<Duration>> {
+        let mut new_modified = None;
         if let Some(last_modified) = self.modified {
             let modified = fs::metadata(&self.path).and_then(|m| m.modified())?;
             if last_modified == modified {
                 return Ok(Some(rate));
             }
 
-            self.modified = Some(modified);
+            new_modified = Some(modified);
         }
 
         let source = read_config(&self.path)?;
+        // only remember the new mtime once the file has actually been read
+        if new_modified.is_some() {
+            self.modified = new_modified;
+        }
 
         if source == self.source {
             return Ok(Some(rate));
